@@ -268,11 +268,48 @@ Example C07_second_announcement_sent_example :
   queue_times (state_after w_exact_ifs w_exact_its 6) = [].
 Proof. exact w_exact_second_sent. Qed.
 
-(* NOT proved over histories (partial): "no response speaks for a unique record whose owner has not
-   been probed three times since the interface (re)appeared" (outside classes 42/44/48) and "every
-   registration reaches Announced in bounded time on never-late schedules" stay at the level of the
-   registry machine (C07_probe_spacing_all_schedules, C07_three_probes_exact,
-   C07_reaches_active_within_a_second) and of the executed monitor; so does chk_C08's clause 29. *)
+(* ---- round 7: the completion step ---------------------------------------------------------------------------
+   The probing pass over an interface (probe_step) finishes probes; for a name w on the waiting list of
+   a finished probe whose service is registered, not yet announced there and announceable in family
+   v4 under the registry after the pass: the announcement goes out in this iteration's probing pass,
+   and in the state after the interface's micro-step the service is Announced on the interface and its
+   second announcement is queued for now + 1000.  (Names get onto a waiting list at registration -
+   C07_registration_is_joins -, a probe finishes only 750 ms after its start - C07_activation_needs_750.) *)
+Theorem C07_probing_pass_announces_completed_service : forall itf t st now js rg rg1 qs evs waiting w s v4,
+  nget (if_index itf) (d_regs st) = Some rg -> probe_step rg now = (rg1, qs, evs, waiting) ->
+  In w waiting -> aget (lower w) (d_svcs st) = Some s -> announced_on (if_index itf) s = false ->
+  announceable s itf rg1 v4 ->
+  In (OSend (if_index itf) v4 Mcast (announcement_of s itf rg1 v4)) (snd (fst (probing_intfs (itf :: t) st now js))) /\
+  match st_probing (itf :: t) st now js with
+  | mid :: _ => (exists s2, aget (lower w) (d_svcs mid) = Some s2 /\ announced_on (if_index itf) s2 = true) /\
+                In (now + 1000, RegisterResend (s_full s) (if_index itf)) (d_retrans mid)
+  | [] => False
+  end.
+Proof. exact probing_pass_completes. Qed.
+
+Example C07_completion_example :
+  sends_announcement (outs_of w_exact_ifs w_exact_its 4) = true /\
+  map (fun ks => s_status (snd ks)) (d_svcs (state_after w_exact_ifs w_exact_its 4)) = [[(2, SProbing)]] /\
+  map (fun ks => s_status (snd ks)) (d_svcs (state_after w_exact_ifs w_exact_its 5)) = [[(2, SAnnounced)]] /\
+  queue_times (state_after w_exact_ifs w_exact_its 5) = [1001895].
+Proof. exact w_exact_completion. Qed.
+
+(* STILL PARTIAL, not proved over histories of the daemon model:
+   (a) "no response or announcement speaks for a unique record whose owner name has not completed
+       three probes 250 ms apart (+250 ms) on that interface since the interface (re)appeared / the
+       name was last forgotten", outside classes 42/44/48;
+   (b) "every registration on a usable interface reaches Announced within registration + jitter + 750 ms
+       (+ 1 s per lost tie-break / conflict) on never-late schedules", and `announceable` at the due
+       time of the second announcement as a consequence.
+   What exists: the registry machine (all operation sequences: C07_probe_spacing_all_schedules,
+   C07_three_probes_exact(_full), C07_reaches_active_within_a_second, C07_activation_needs_750), the
+   daemon steps at both ends (C07_registration_is_joins, C07_probing_pass_announces_completed_service,
+   C07_due_second_announcement_sent_partial, the queue theorems) and the executed monitor.  The missing
+   middle is the exact timing of ONE probe through daemon iterations in which other services join
+   probes and competing probes are tie-broken: the lift used so far (QReach: "some quiet operations")
+   hides which names those operations touch; it needs a per-(interface, name) invariant carried
+   through every daemon function (as done for the deferral, C08_deferral_respected_partial, where
+   every quiet operation is harmless). *)
 
 (* History level, full statement (validated on every generated history by running chk_C07 on the
    model's own observation, NOT proved):
@@ -315,6 +352,8 @@ Print Assumptions C07_second_announcement_stays_queued.
 Print Assumptions C07_due_second_announcement_sent_partial.
 Print Assumptions C07_announcement_of_is_an_announcement.
 Print Assumptions C07_second_announcement_sent_example.
+Print Assumptions C07_probing_pass_announces_completed_service.
+Print Assumptions C07_completion_example.
 Print Assumptions C07_three_probes_on_late_schedules_refuted.
 Print Assumptions C07_record_joining_a_probe_refuted.
 Print Assumptions C07_reprobe_after_host_rename.
